@@ -84,6 +84,11 @@ func vRichBuiltin(area int, tag string) *appsv1.StatefulSet {
 				sts.OwnerReferences[0].BlockOwnerDeletion = &b
 			}
 		}
+		if sym.Pick("managedFields", 2) == 1 {
+			// what every object read from a real API server carries
+			sts.ManagedFields = []metav1.ManagedFieldsEntry{{Manager: sym.Str("manager", "kubectl", "controller"), Operation: metav1.ManagedFieldsOperationUpdate,
+				APIVersion: "apps/v1", FieldsType: "FieldsV1", FieldsV1: &metav1.FieldsV1{Raw: []byte(`{"f:spec":{}}`)}}}
+		}
 		switch sym.Pick("deletion", 3) {
 		case 1:
 			ts := metav1.Unix(1700000000, 0)
